@@ -1,6 +1,8 @@
 -------------------------------- MODULE World --------------------------------
 (* C14 - purity of the device / codec / DSP functions.
-   The world is (gv digest, numpy RNG state digest, memo of results).  A public function call
+   The world is (gv digest, numpy RNG state digest, memo of results).  The gv digest stands for all process-wide configuration a
+   later call can observe: the attributes of the gv singleton and numpy's floating-point error policy (np.seterr) - a function that
+   leaves 'raise' behind changes what db(0) does afterwards.  A public function call
      - leaves gv and its arguments untouched                                   (Frame)
      - leaves the RNG untouched if the function is deterministic               (RngFrame)
      - returns a value that is a function of (name, arguments, gv[, RNG state]) (Determinism)
